@@ -32,6 +32,12 @@ CID = "cutplace.interface.Cid"
 NAME, NUMBER, STRING, OP, END = _token.NAME, _token.NUMBER, _token.STRING, _token.OP, _token.ENDMARKER
 
 
+def _init_of(model, class_qualname):
+    """Qualified name of the constructor an instance of the class runs (its own or the one it inherits)."""
+    method = model.lookup_method(model.cls(class_qualname), "__init__")
+    return method.qualname if method is not None else class_qualname + ".__init__"
+
+
 def _new_cid(interp, model):
     @stub
     def empty_map(interp_, args, kwargs):
@@ -162,7 +168,7 @@ def rule_row_order(ctx):
         stubs = {
             CID + "._create_field_format_class": create_class, CID + "._create_check_class": create_check_class,
             "cutplace.fields.TextFieldFormat.__new__": field_new, "cutplace.checks.IsUniqueCheck.__new__": check_new,
-            "cutplace.fields.TextFieldFormat.__init__": field_init, "cutplace.checks.IsUniqueCheck.__init__": check_init,
+            _init_of(model, "cutplace.fields.TextFieldFormat"): field_init, _init_of(model, "cutplace.checks.IsUniqueCheck"): check_init,
         }
         interp = Interp(model, ch, stubs=stubs, externals={"codecs.lookup": lambda i, a, k: Opaque("codec")})
         interp.externals["logging.getLogger"] = lambda i, a, k: Obj("logging.Logger", {"debug": stub(lambda i2, a2, k2: None)})
@@ -311,7 +317,7 @@ def rule_field_row(ctx, rule="O9.6", mode="values"):
 
         stubs = {
             CID + "._create_field_format_class": stub(lambda i, a, k: ClassRef(model.cls("cutplace.fields.TextFieldFormat"))),
-            "cutplace.fields.TextFieldFormat.__new__": field_new, "cutplace.fields.TextFieldFormat.__init__": field_init,
+            "cutplace.fields.TextFieldFormat.__new__": field_new, _init_of(model, "cutplace.fields.TextFieldFormat"): field_init,
         }
         interp = Interp(model, ch, stubs=stubs, externals={"keyword.iskeyword": lambda i, a, k: keyword.iskeyword(a[0])})
         interp.externals["logging.getLogger"] = lambda i, a, k: Obj("logging.Logger", {"debug": stub(lambda i2, a2, k2: None)})
@@ -394,7 +400,7 @@ def rule_check_row(ctx):
 
         stubs = {
             CID + "._create_check_class": stub(lambda i, a, k: ClassRef(model.cls("cutplace.checks.IsUniqueCheck"))),
-            "cutplace.checks.IsUniqueCheck.__new__": check_new, "cutplace.checks.IsUniqueCheck.__init__": check_init,
+            "cutplace.checks.IsUniqueCheck.__new__": check_new, _init_of(model, "cutplace.checks.IsUniqueCheck"): check_init,
         }
         interp = Interp(model, ch, stubs=stubs)
         interp.externals["logging.getLogger"] = lambda i, a, k: Obj("logging.Logger", {"debug": stub(lambda i2, a2, k2: None)})
